@@ -371,9 +371,15 @@ Error BaseBuilder::section(Section* section) {
   ASMJIT_ASSUME(node != nullptr);
 
   if (!node->is_active()) {
-    // Insert the section at the end if it was not part of the code.
-    add_after(node, last_node());
-    _cursor = node;
+    // Insert the section at the end if it was not part of the code (it becomes the only node if the list is empty).
+    if (_node_list.is_empty()) {
+      _cursor = nullptr;
+      add_node(node);
+    }
+    else {
+      add_after(node, last_node());
+      _cursor = node;
+    }
   }
   else {
     // This is a bit tricky. We cache section links to make sure that switching sections doesn't involve
